@@ -174,6 +174,66 @@ fn cmd_list() -> i32 {
     0
 }
 
+/// Write generator inputs as seed corpus files for libFuzzer.
+#[cfg(feature = "full")]
+fn cmd_emit_corpus(args: &[String]) -> i32 {
+    let dir = args.get(0).cloned().unwrap_or_default();
+    let seed: u64 = arg_val(args, "--seed").and_then(|s| s.parse().ok()).unwrap_or(1);
+    let count: u64 = arg_val(args, "--count").and_then(|s| s.parse().ok()).unwrap_or(300);
+    for i in 0..count {
+        let mut rng = Rng::from_parts(&[seed, 0xf0221, i]);
+        let input = corpus::gen_input(&mut rng, i % corpus::KINDS, i % 3 == 0);
+        if input.bytes.len() > 8192 {
+            continue;
+        }
+        if std::fs::write(format!("{dir}/seed-{i:05}"), &input.bytes).is_err() {
+            return 2;
+        }
+    }
+    0
+}
+
+/// Classify one libFuzzer artifact with the monitors of C01 (crate panic) or C16 (budget, item bound).
+#[cfg(feature = "full")]
+fn cmd_fuzzcase(args: &[String]) -> i32 {
+    let pid = args.get(0).cloned().unwrap_or_default();
+    let path = args.get(1).cloned().unwrap_or_default();
+    let data = match std::fs::read(&path) {
+        Ok(d) => d,
+        Err(e) => {
+            eprintln!("{path}: {e}");
+            return 2;
+        }
+    };
+    monitor::panic::install();
+    let mut found = 0;
+    // the fuzz target derives its salt from the input; try that salt first and a few others
+    let n = data.len() as u64;
+    let fsalt = n.wrapping_mul(0x9E37_79B9_7F4A_7C15) ^ data.first().copied().unwrap_or(0) as u64;
+    for salt in [fsalt, 0, 1, 2, 3] {
+        if pid == "C16" {
+            let mut ctx = Ctx::new("C16", Tier::Quick, 1, 0, 1);
+            ctx.set_input(&data);
+            props::c16::walk_one(&mut ctx, &data, "libFuzzer artifact", salt, 256);
+            for v in &ctx.violations {
+                println!("FUZZ-VIOLATION C16 {} {}", v.sig, v.detail.replace('\n', " "));
+                found += 1;
+            }
+        } else {
+            let mut ctx = Ctx::new("C01", Tier::Quick, 1, 0, 1);
+            props::c01::walk_all_specs(&mut ctx, &data, "libFuzzer artifact", salt, 256);
+            for v in &ctx.violations {
+                println!("FUZZ-VIOLATION C01 {} {}", v.sig, v.detail.replace('\n', " "));
+                found += 1;
+            }
+        }
+        if found > 0 {
+            break;
+        }
+    }
+    if found > 0 { 1 } else { 0 }
+}
+
 fn main() {
     let args: Vec<String> = std::env::args().skip(1).collect();
     let code = match args.get(0).map(|s| s.as_str()) {
@@ -181,6 +241,10 @@ fn main() {
         Some("replay") => cmd_replay(&args[1..]),
         Some("canary") => monitor::canary::run(&args[1..]),
         Some("list") => cmd_list(),
+        #[cfg(feature = "full")]
+        Some("emit-corpus") => cmd_emit_corpus(&args[1..]),
+        #[cfg(feature = "full")]
+        Some("fuzzcase") => cmd_fuzzcase(&args[1..]),
         _ => {
             eprintln!("usage: elfmon run|replay|canary|list …");
             2
